@@ -434,6 +434,9 @@ type c11Change struct {
 	nhs    []netip.Addr
 	nhMode int
 	shape  int // how the Path object is built (plain, MP_REACH last, derived by Clone+set/del)
+	// prepend: the leftmost AS number is put in front by Path.PrependAsn on a clone, as
+	// UpdatePathAttrs does for every route exported to an eBGP peer
+	prepend bool
 	hash   uint64
 	path   *Path
 	nl     bgp.NLRI
@@ -560,8 +563,20 @@ func (c *c11Change) build() {
 			extraDel = append(extraDel, bgp.BGP_ATTR_TYPE_MULTI_EXIT_DISC)
 		}
 	}
+	var firstAS uint32
+	if c.prepend {
+		for i, a := range attrs {
+			if a.GetType() == bgp.BGP_ATTR_TYPE_AS_PATH {
+				firstAS, attrs[i] = c11AsPathWithoutFirst(c.set)
+			}
+		}
+	}
 	p := NewPath(c.fam, verifSrcPeer, pn, false, attrs, c11Time, false)
 	p.localID = c.id
+	if c.prepend {
+		p = p.Clone(false)
+		p.PrependAsn(firstAS, 1, false)
+	}
 	if derived {
 		p = p.Clone(false)
 		if setLater != nil {
@@ -579,4 +594,35 @@ func (c *c11Change) build() {
 		p.SetHash(c.hash)
 	}
 	c.path = p
+}
+
+// c11AsPathWithoutFirst returns the leftmost AS number of the set's AS_PATH and a gobgp AS_PATH
+// attribute holding the rest (rebuilt from the expected octets: AS_SEQUENCE segments only).
+func c11AsPathWithoutFirst(set *c11AttrSet) (uint32, *bgp.PathAttributeAsPath) {
+	var val []byte
+	for _, a := range set.exp {
+		if a.typ == 2 {
+			val = a.val
+		}
+	}
+	var first uint32
+	var params []bgp.AsPathParamInterface
+	for seg := 0; len(val) >= 2; seg++ {
+		n := int(val[1])
+		as := make([]uint32, n)
+		for i := range as {
+			as[i] = binary.BigEndian.Uint32(val[2+4*i:])
+		}
+		if seg == 0 {
+			first, as = as[0], as[1:]
+		}
+		if len(as) > 0 {
+			params = append(params, bgp.NewAs4PathParam(val[0], as))
+		}
+		val = val[2+4*n:]
+	}
+	if params == nil {
+		params = []bgp.AsPathParamInterface{}
+	}
+	return first, bgp.NewPathAttributeAsPath(params)
 }
